@@ -16,6 +16,7 @@ from engine.common import setup_paths
 from ref.sem import Sem
 
 PROPERTY = 'C01'
+SECOND_PASS = ('run_cases',)     # see engine/common._run_shard
 LEVEL = 'exploration'
 EXHAUSTIVE = True
 RULE = ('every instance of the parameter boxes / every labelled (bipartite) '
